@@ -9,7 +9,7 @@ from vf import tzref
 PROP = 'C17'
 RULE = ('for every Haystack zone hszinc maps on this host: the tz object handed out by hszinc.zoneinfo.timezone(name) must '
         'be the zone of that name (independent suffix resolution) and the map one-to-one; every tabulated UTC transition '
-        'instant of the zone (pytz table) +-{0, 1 s, 30 min}, with microsecond in {0, 1, 999999}, is converted to local time '
+        'instant of the zone (pytz table) +-{0, 1 s, 30 min}, with microsecond in {0, 1, 999999} (plus 17 other microsecond values per zone, among them ones a float cannot hold exactly), is converted to local time '
         '(utc.localize(t).astimezone(Z), so ambiguous and skipped local times arise from real instants), written with '
         'dump_scalar and read back with parse_scalar in both formats; instant, UTC offset, zone of the result and the zone '
         'token in the text are compared. Other tz-aware values (datetime.timezone / pytz.FixedOffset for every whole-minute '
@@ -47,6 +47,10 @@ def zone_cases(tz, which, rng):
     # some ordinary instants too
     for y in (1955, 1985, 2020, 2037):
         out.append(datetime.datetime(y, 6, 15, 12, 34, 56, 789000))
+    # microsecond values a binary float cannot hold exactly (0.000249 * 1e6 is 248.99999999999997): a reader that goes
+    # through float arithmetic loses a microsecond on about one value in ninety; plus a few random ones per zone
+    for us in (249, 251, 489, 1001, 8193, 524287, 123457, 999998, 500001, 57, 29) + tuple(rng.randrange(1000000) for _ in range(6)):
+        out.append(datetime.datetime(2021, 3, 3, 3, 33, 33, us))
     # skipped local times cannot arise from real instants: build them the way a user can, with
     # tz.localize(wall clock inside the gap, is_dst=...).  They denote a real instant, but their
     # UTC offset is not the zone's offset at that instant, so only instant and zone are judged.
